@@ -73,6 +73,13 @@ class Acc:
     def violation(self, sig, case, detail=""):
         self.violations.append({"sig": sig, "case": case, "detail": str(detail)[:2000]})
 
+    def timed(self, label, secs, threshold=15.0):
+        """Remember slow cases so that stragglers are visible in evidence."""
+        if secs >= threshold:
+            lst = self.stats.setdefault("slow_cases", [])
+            if len(lst) < 40:
+                lst.append(f"{label}: {secs:.0f}s")
+
     def note(self, text):
         if len(self.notes) < 50:
             self.notes.append(str(text)[:500])
@@ -91,6 +98,8 @@ class Acc:
 
 def _merge_stats(dst, src):
     for k, v in src.items():
+        if k == "__kind":
+            continue
         if isinstance(v, dict):
             _merge_stats(dst.setdefault(k, {}), v)
         elif isinstance(v, (int, float)):
@@ -126,6 +135,8 @@ def _call(modname, fn, arg):
             res = {"__i": arg["__i"], "violations": mod.replay(arg["case"])}
         else:
             res = getattr(mod, fn)(arg)
+            if fn == "work" and isinstance(res, dict) and isinstance(arg, dict):
+                res.setdefault("stats", {})["__kind"] = arg.get("kind", "shard")
         return {"ok": True, "res": res, "wall": time.monotonic() - t0}
     except BaseException:  # harness error, reported as exit 2 by the parent
         return {"ok": False, "tb": traceback.format_exc(), "arg": arg}
@@ -280,6 +291,10 @@ def run_property(prop: str, tier: str, seed: int, replay_path: str | None = None
             sys.stderr.write(f"HARNESS ERROR in shard {canon(out['arg'])[:300]}\n")
             return 2
         r = out["res"]
+        kind = str(r.get("stats", {}).get("__kind", "shard"))
+        sw = merged["stats"].setdefault("shard_wall_s", {})
+        sw[kind] = round(sw.get(kind, 0) + out["wall"], 1)
+        sw[kind + "_max"] = round(max(sw.get(kind + "_max", 0), out["wall"]), 1)
         merged["evaluations"] += r["evaluations"]
         merged["nontrivial"].update(r["nontrivial"])
         for s in r["samples"]:
